@@ -236,6 +236,14 @@ def function_stream(run: core.Run, drv, stats: Counter, hist: Counter, n: int):
 
     failures = []
     open_ids = {f["id"] for f in run.open_findings()}
+    # If(<constant>) inside a function body, a branch owning an initializer (C04-D9, fixed by 26dd9fc): the Lean
+    # `foldFunction` (initializers left in the body become Constant nodes) against the real pass
+    for cond in (True, False):
+        for owner in ("then", "else", "both", "none"):
+            fm = R.m_function_if(cond, owner, None)
+            for p in fold_functions_tie(drv, fm, stats, hist):
+                failures.append(("tie", {"model_b64": R.b64(fm), "meta": {"kinds": ["function_if", cond, owner]}, "api": "fold_constants", "opts": {}},
+                                 "function tie: " + p))
     for m, meta in function_models(run.rng, n):
         desc = {"model_b64": R.b64(m), "meta": {k: (list(v) if isinstance(v, tuple) else v) for k, v in meta.items()}}
         stats["fn_models"] += 1
